@@ -376,7 +376,11 @@ func runProp(prop string) int {
 				continue
 			}
 			classes[o.Kind] = true
-			o.Query = buildQuery(pre, o, mt)
+			if o.NAsserts > 0 && o.NAsserts < len(c.asserts) {
+				o.Query = buildQuery(c.preludeUpTo(o.NAsserts), o, mt)
+			} else {
+				o.Query = buildQuery(pre, o, mt)
+			}
 			rr.obls = append(rr.obls, o)
 			rr.ctxOf[o] = c
 		}
